@@ -1022,6 +1022,21 @@ def run_case(ent, case, body_ast, params_txt, assume=None):
         if len(sym.fns[fname][1]) != len(fparams): raise Unsupported("%s takes %d parameters, %d expected" % (fname, len(sym.fns[fname][1]), len(fparams)))
     sym.world = ent.get("world")
     sym.case = case
+    helper_files = [ent["file"]] + sorted({se["file"] for sn in ent.get("subs", []) for es in ENTRIES.values() for se in es if se["name"] == sn or se.get("cls") == sn})
+    def find_helper(name):
+        """`self.name(..)` / `Self::name(..)` where `name` is not a listed method: a private helper `fn name` of the same file
+        (or of the file of an inner filter whose body is being executed)"""
+        for _file in helper_files:
+            txt = _R.strip_comments(open(_file).read()).split("#[cfg(test)]")[0]
+            m = re.search(r"\bfn\s+%s\s*(<[^>]*>)?\s*\(" % re.escape(name), txt)
+            if not m: continue
+            j = txt.index("(", m.start()); ptxt = _R.balanced(txt, j, "(", ")"); k = txt.index("{", j + len(ptxt))
+            return parse_body(_R.balanced(txt, k)), sig_names(ptxt[1:-1])
+        return None
+    sym.find_helper = find_helper
+    sym.entry_fn = ent["fn"]
+    for gname, gval in list((ent.get("locals") or {}).items()):
+        if gname[:1].isupper(): sym.global_env.vars[gname] = gval
     sym.case_fuel = case.get("fuel", 1)
     for mname, (mfile, mimpl, mparams) in (ent.get("methods") or {}).items():      # helper methods of the receiver's own class
         sym.subs[(ent["cls"], mname)] = method_def(mfile, mimpl, mname)
@@ -1041,6 +1056,16 @@ def run_case(ent, case, body_ast, params_txt, assume=None):
                 for x_ in node: deep(x_, acc)
             return acc
         found = deep(body_ast, [])
+        def self_calls(node, acc):
+            if isinstance(node, tuple):
+                if node and node[0] == "mcall" and node[1] == ("path", ["self"]): acc.append(node[2])
+                for x_ in node: self_calls(x_, acc)
+            elif isinstance(node, list):
+                for x_ in node: self_calls(x_, acc)
+            return acc
+        for hname in self_calls(body_ast, []):                       # loops that were moved into a private helper, in call order
+            h = find_helper(hname)
+            if h is not None: found = found + deep(h[0], [])
         if kth >= len(found): raise Unsupported("the body has only %d `%s` loops" % (len(found), kind))
         body_ast = found[kth][3] if (ent.get("unwrap_for") and kind == "for") else ("block", [("expr", found[kth])], None)
     if assume is not None: sym.assume = list(assume)
@@ -1052,8 +1077,8 @@ def run_case(ent, case, body_ast, params_txt, assume=None):
         body_ast = fors[0][3]
     env = Env()
     selfv = case["self"]
-    if ent.get("cls") and selfv[0] == "struct" and "__sub" not in selfv[1]:
-        d = dict(selfv[1]); d["__sub"] = ("mark", ent["cls"]); selfv = ("struct", d)
+    if selfv[0] == "struct" and "__sub" not in selfv[1]:
+        d = dict(selfv[1]); d["__sub"] = ("mark", ent.get("cls") or ("own:" + ent["name"])); selfv = ("struct", d)
     env.vars["self"] = selfv
     src_names = sig_names(params_txt) if not ent.get("select") else list(ent["params"].keys())
     if len(src_names) != len(ent["params"]): raise Unsupported("the method takes %d parameters (%s), %d expected" % (len(src_names), " ".join(src_names), len(ent["params"])))
